@@ -400,6 +400,10 @@ def value(rng, n, env, small=False, params=frozenset()):
     if k == "Enum":
         r = rng.random()
         names = ["".join(map(chr, x)) for x in n["names"]]
+        if r < 0.08 and names:
+            # a label object made by another Enum (or by hand): a str equal to one of this Enum's labels that carries some other integer
+            from construct import EnumIntegerString
+            return EnumIntegerString.new(rng.choice([0, 1, 3, 9, 255]), rng.choice(names))
         if r < 0.5: return rng.choice(names)
         if r < 0.6: return "nosuch"
         if r < 0.8: return V.dec(rng.choice(n["vals"]))
